@@ -35,6 +35,9 @@ func explore(c *core.Ctx, max int, run func(choices []int) []int) (int, bool) {
 		fineWalkSeed++
 		k := 0
 		n := sched.Walks(max, c.Seed*1000003+fineWalkSeed, func(choices []int) []int {
+			if c.Expired() {
+				return nil
+			}
 			// every fourth walk starves one worker at its I/O events (an underlying call that stalls)
 			fineStarve = ""
 			if k%4 == 3 {
@@ -46,7 +49,15 @@ func explore(c *core.Ctx, max int, run func(choices []int) []int) (int, bool) {
 		})
 		return n, false
 	}
-	return sched.Explore(max, run)
+	cut := false
+	n, ex := sched.Explore(max, func(choices []int) []int {
+		if c.Expired() {
+			cut = true
+			return nil
+		}
+		return run(choices)
+	})
+	return n, ex && !cut
 }
 
 // fineStarve: the worker the scheduler starves in the current walk ("" = none); runners that support it
